@@ -36,7 +36,7 @@ Proof.
   intros output apps m [= <-]. unfold pure_module. cbn [view_of]. split; [|split].
   - intros k v H. apply in_map_iff in H. destruct H as [a [[= <- <-] _]]. split; reflexivity.
   - intros Hne. destruct apps as [|a apps]; [contradiction|]. cbn [map].
-    destruct (wlookup_some_of_key output ((output, None) :: map (fun _ : wapp => (output, @None str)) apps)) as [v Hv]; [left; reflexivity|].
+    destruct (wlookup_some_of_key output ((output, None) :: map (fun _ : wapp => (output, @None (list str))) apps)) as [v Hv]; [left; reflexivity|].
     rewrite Hv. f_equal. apply wlookup_in in Hv. destruct Hv as [[= <-]|Hv]; [reflexivity|].
     apply in_map_iff in Hv. destruct Hv as [a' [[= <-] _]]. reflexivity.
   - intros ->. reflexivity.
@@ -45,7 +45,7 @@ Qed.
 (* --direct with %(epname): one file per application, holding the per-application view of exactly that application,
    provided no two applications are given the same file name *)
 Lemma pure_lookup : forall output apps a, NoDup (map w_out apps) -> In a apps ->
-  wlookup (w_out a) (pure_module true output apps) = Some (Some (w_name a)).
+  wlookup (w_out a) (pure_module true output apps) = Some (Some [w_name a]).
 Proof.
   intros output. unfold pure_module. cbn [view_of].
   induction apps as [|b apps IH]; intros a Hnd Hin; [destruct Hin|]. cbn [map] in Hnd. inversion Hnd as [|? ? Hni Hnd']; subst.
@@ -56,7 +56,7 @@ Proof.
 Qed.
 Theorem direct_per_app_exact : forall output apps m, gen_models (WDirect true output apps) = Some m ->
   NoDup (map w_out apps) ->
-  (forall a, In a apps -> wlookup (w_out a) m = Some (Some (w_name a))) /\
+  (forall a, In a apps -> wlookup (w_out a) m = Some (Some [w_name a])) /\
   (forall k, In k (wkeys m) -> exists a, In a apps /\ k = w_out a).
 Proof.
   intros output apps m [= <-] Hnd. split.
@@ -67,33 +67,25 @@ Qed.
 Example direct_per_app_example : NoDup (map w_out [ {| w_name := [2%positive]; w_out := 5%positive |}; {| w_name := [3%positive]; w_out := 6%positive |} ]).
 Proof. repeat constructor; cbn; intuition discriminate. Qed.
 
-(* project manner: the file of an endpoint holds the view of the LAST action statement naming an application *)
-Fixpoint last_target (stmts:list wstmt) (cur:option str) : option str :=
-  match stmts with
-  | [] => cur
-  | WAction (Some a) :: r => last_target r (Some a)
-  | _ :: r => last_target r cur
-  end.
+(* project manner (fix C15-9): the file of an endpoint holds ONE view, restricted (with %(epname)) to ALL the applications
+   its action statements name; an endpoint that names none writes no file *)
 Lemma data_model_lookup : forall has_ep out stmts,
-  wlookup out (data_model has_ep out stmts) = option_map (view_of has_ep) (last_target stmts None) /\
+  wlookup out (data_model has_ep out stmts) =
+    match named_apps stmts with [] => None | named => Some (view_of has_ep named) end /\
   forall k, k <> out -> wlookup k (data_model has_ep out stmts) = None.
 Proof.
-  intros has_ep out stmts. split.
-  - assert (G : forall cur, match wlookup out (data_model has_ep out stmts) with Some x => Some x | None => option_map (view_of has_ep) cur end
-                          = option_map (view_of has_ep) (last_target stmts cur)).
-    { induction stmts as [|s stmts IH]; intros cur; [reflexivity|]. unfold data_model in *. cbn [flat_map].
-      destruct s as [[a|]|]; cbn [app last_target]; try apply IH.
-      cbn [wlookup]. rewrite <- IH. destruct (wlookup out _); [reflexivity|]. rewrite Pos.eqb_refl. reflexivity. }
-    specialize (G None). cbn [option_map] in G. destruct (wlookup out _) eqn:E; rewrite <- G; reflexivity.
-  - intros k Hk. apply wlookup_none. unfold wkeys, data_model. intros Hin. apply in_map_iff in Hin.
-    destruct Hin as [[k' v] [Hf Hin]]. cbn [fst] in Hf. subst k'. apply in_flat_map in Hin. destruct Hin as [s [_ Hin]].
-    destruct s as [[a|]|]; cbn [In] in Hin; [|destruct Hin|destruct Hin].
-    destruct Hin as [Hin|[]]. injection Hin as Hout _. apply Hk. symmetry. exact Hout.
+  intros has_ep out stmts. unfold data_model, view_apps. destruct (named_apps stmts) as [|a l]; [split; reflexivity|]. split.
+  - cbn [wlookup]. rewrite Pos.eqb_refl. reflexivity.
+  - intros k Hk. cbn [wlookup]. destruct (Pos.eqb k out) eqn:E; [apply Pos.eqb_eq in E; contradiction|reflexivity].
+Qed.
+Lemma data_model_keys : forall has_ep out stmts k, In k (wkeys (data_model has_ep out stmts)) -> k = out.
+Proof.
+  intros has_ep out stmts k. unfold data_model. destruct (named_apps stmts); cbn; [intros []|intros [<-|[]]; reflexivity].
 Qed.
 
-Theorem project_endpoint_partial : forall has_ep eps m e, gen_models (WProject true has_ep eps) = Some m ->
+Theorem project_endpoint_exact : forall has_ep eps m e, gen_models (WProject true has_ep eps) = Some m ->
   NoDup (map ep_out eps) -> In e eps -> ep_match e = true ->
-  wlookup (ep_out e) m = option_map (view_of has_ep) (last_target (ep_stmts e) None).
+  wlookup (ep_out e) m = match named_apps (ep_stmts e) with [] => None | named => Some (view_of has_ep named) end.
 Proof.
   intros has_ep eps m e [= <-]. unfold project_manner. induction eps as [|e' eps IH]; intros Hnd Hin Hm; [destruct Hin|].
   cbn [map] in Hnd. inversion Hnd as [|? ? Hni Hnd']; subst. cbn [flat_map]. rewrite wlookup_app. destruct Hin as [->|Hin].
@@ -101,23 +93,32 @@ Proof.
     + apply data_model_lookup.
     + unfold wkeys. intros H. apply in_map_iff in H. destruct H as [[k v] [Hk H]]. cbn [fst] in Hk. subst k.
       apply in_flat_map in H. destruct H as [e2 [He2 H]]. destruct (ep_match e2); [|destruct H].
-      unfold data_model in H. apply in_flat_map in H. destruct H as [s [_ H]]. destruct s as [[a|]|]; cbn [In] in H; [|destruct H|destruct H].
-      destruct H as [H|[]]. injection H as Hout _. apply Hni. rewrite <- Hout. apply in_map. exact He2.
-  - rewrite (IH Hnd' Hin Hm). destruct (last_target (ep_stmts e) None); cbn [option_map]; [reflexivity|].
+      assert (K : ep_out e = ep_out e2) by (apply (data_model_keys has_ep (ep_out e2) (ep_stmts e2)); unfold wkeys; apply in_map_iff; exists (ep_out e, v); split; [reflexivity|exact H]).
+      apply Hni. rewrite K. apply in_map. exact He2.
+  - rewrite (IH Hnd' Hin Hm). destruct (named_apps (ep_stmts e)); [|reflexivity].
     destruct (ep_match e'); [|reflexivity]. apply data_model_lookup. intros E. apply Hni. rewrite <- E. apply in_map. exact Hin.
 Qed.
 
-(* ... so an endpoint that names two applications does not cover the first: refuted in full *)
-Theorem project_endpoint_covers_all_refuted : exists eps m a b out,
-  gen_models (WProject true true eps) = Some m /\
-  eps = [ {| ep_out := out; ep_match := true; ep_stmts := [WAction (Some a); WAction (Some b)] |} ] /\ a <> b /\
-  wlookup out m = Some (Some b) /\ forall k, wlookup k m <> Some (Some a).
+(* the applications a statement list names: every action statement naming an application of the model, in order *)
+Lemma named_apps_spec : forall stmts a, In a (named_apps stmts) <-> In (WAction (Some a)) stmts.
 Proof.
-  exists [ {| ep_out := 7%positive; ep_match := true; ep_stmts := [WAction (Some [2%positive]); WAction (Some [3%positive])] |} ].
-  exists [(7%positive, Some [2%positive]); (7%positive, Some [3%positive])]. exists [2%positive], [3%positive], 7%positive. split; [reflexivity|]. split; [reflexivity|]. split; [discriminate|].
-  split; [reflexivity|]. intros k H. cbn [wlookup] in H. destruct (Pos.eqb k 7%positive); discriminate H.
+  intros stmts a. unfold named_apps. rewrite in_flat_map. split.
+  - intros [s [Hs Hin]]. destruct s as [[b|]|]; cbn [In] in Hin; try destruct Hin as [<-|[]]; try destruct Hin. exact Hs.
+  - intros H. exists (WAction (Some a)). split; [exact H|left; reflexivity].
+Qed.
+
+(* ... so an endpoint covers every application it names (the refutation of the first pass is gone): with %(epname) the
+   file of a matched endpoint is the view restricted to exactly the named applications *)
+Theorem project_endpoint_covers_all : forall eps m e a, gen_models (WProject true true eps) = Some m ->
+  NoDup (map ep_out eps) -> In e eps -> ep_match e = true -> In (WAction (Some a)) (ep_stmts e) ->
+  exists named, wlookup (ep_out e) m = Some (Some named) /\ (forall b, In b named <-> In (WAction (Some b)) (ep_stmts e)).
+Proof.
+  intros eps m e a Hg Hnd Hin Hm Ha. rewrite (project_endpoint_exact _ _ _ _ Hg Hnd Hin Hm).
+  apply named_apps_spec in Ha. destruct (named_apps (ep_stmts e)) as [|x l] eqn:E; [destruct Ha|].
+  exists (x :: l). split; [reflexivity|]. intros b. rewrite <- E. apply named_apps_spec.
 Qed.
 Example project_endpoint_example :
-  NoDup (map ep_out [ {| ep_out := 7%positive; ep_match := true; ep_stmts := [WOther; WAction None; WAction (Some [2%positive])] |} ]) /\
-  last_target [WOther; WAction None; WAction (Some [2%positive])] None = Some [2%positive].
+  NoDup (map ep_out [ {| ep_out := 7%positive; ep_match := true; ep_stmts := [WAction (Some [2%positive]); WOther; WAction None; WAction (Some [3%positive])] |} ]) /\
+  gen_models (WProject true true [ {| ep_out := 7%positive; ep_match := true; ep_stmts := [WAction (Some [2%positive]); WOther; WAction None; WAction (Some [3%positive])] |} ])
+    = Some [(7%positive, Some [[2%positive]; [3%positive]])].
 Proof. split; [repeat constructor; intros []|reflexivity]. Qed.
